@@ -233,6 +233,31 @@ def main():
         if variant >= 3:
             top["States"]["P"].pop("End"); top["States"]["P"]["Next"] = "Z"; top["States"]["Z"] = {"Type": "Succeed"}
         defs.append((top, "duplicate names in sibling sub-machines"))
+    # directed definitions: state names that a path expression cannot carry or that equal a member of some payload, states named like
+    # fields of the language, nested machines that cannot be started, empty-string names
+    def P(x):
+        return {"Type": "Pass", **x}
+    for nm in ("a.b", "x[0]", "it's", "a b", "$..k", "Process", "Result", "Parameters", "ItemSelector", "ResultSelector", "States", "Next"):
+        inner = {"StartAt": nm, "States": {nm: P({"Next": "z" + nm}), "z" + nm: P({"End": True})}}
+        defs.append(({"StartAt": "Prep", "States": {"Prep": P({"Result": {"Process": "yes", "k": {"a.b": 1}}, "ResultPath": "$.prep", "Next": "Par"}),
+                                                   "Par": {"Type": "Parallel", "Branches": [copy.deepcopy(inner)], "Next": "M"},
+                                                   "M": {"Type": "Map", "ItemsPath": "$.prep.none", "Iterator": {"StartAt": "q" + nm, "States": {"q" + nm: P({"End": True})}}, "End": True}}},
+                     "directed: nested state named %r" % nm))
+        # the dangling Next is the only defect of these two (every state is reachable, a terminal state exists)
+        def only_dangling(tag):
+            return {"StartAt": "C" + tag, "States": {"C" + tag: {"Type": "Choice", "Choices": [{"Variable": "$.a", "IsPresent": True, "Next": nm}], "Default": "Fin" + tag},
+                                                     nm: P({"Next": "Gone"}), "Fin" + tag: P({"End": True})}}
+        defs.append((only_dangling(""), "directed: dangling Next in a state named %r" % nm))
+        defs.append(({"StartAt": "Par", "States": {"Par": {"Type": "Parallel", "End": True, "Branches": [only_dangling("2")]}}}, "directed: dangling Next in a nested state named %r" % nm))
+    for bad in ({"States": {"A": P({"End": True})}}, {}, 5, "A", None, [], {"StartAt": "", "States": {"A": P({"End": True})}}, {"StartAt": 3, "States": {"A": P({"End": True})}}):
+        defs.append(({"StartAt": "Par", "States": {"Par": {"Type": "Parallel", "End": True, "Branches": [{"StartAt": "A", "States": {"A": P({"End": True})}}, bad]}}},
+                     "directed: a branch that cannot be started"))
+        defs.append(({"StartAt": "M", "States": {"M": {"Type": "Map", "ItemsPath": "$.items", "End": True, rng.choice(["Iterator", "ItemProcessor"]): bad}}},
+                     "directed: an iterator that cannot be started"))
+    defs.append(({"StartAt": "A", "States": {"A": P({"Next": ""}), "B": P({"End": True})}}, "directed: empty Next"))
+    defs.append(({"StartAt": "", "States": {"A": P({"End": True})}}, "directed: empty StartAt"))
+    defs.append(({"StartAt": "C", "States": {"C": {"Type": "Choice", "Choices": [{"Variable": "$.a", "IsPresent": True, "Next": ""}], "Default": "B"}, "B": P({"End": True})}}, "directed: empty Next in a rule"))
+    defs.append(({"StartAt": "C", "States": {"C": {"Type": "Choice", "Choices": [{"Variable": "$.nope", "IsPresent": True, "Next": "B"}], "Default": ""}, "B": P({"End": True})}}, "directed: empty Default"))
     accepted = 0
     for d, kind in defs:
         # 1. the validator reports problems rather than raising
